@@ -35,7 +35,7 @@ struct World {
 
 impl World {
     fn new(tag: &str, n_ids: usize, contents: Vec<String>) -> World {
-        let dir = PathBuf::from(format!("/verif/work/c12-{}-{}", std::process::id(), tag));
+        let dir = PathBuf::from(format!("{}/work/c12-{}-{}", out_dir(), std::process::id(), tag));
         let _ = std::fs::create_dir_all(&dir);
         let ids = (0..n_ids).map(|i| dir.join(format!("f{i}.aidl"))).collect();
         World { dir, ids, contents }
@@ -338,7 +338,7 @@ pub fn run_c12(ctx: &Ctx) -> i32 {
         w.cleanup();
     }));
     // remove the per-thread scratch directories of the exhaustive stages
-    if let Ok(rd) = std::fs::read_dir("/verif/work") {
+    if let Ok(rd) = std::fs::read_dir(format!("{}/work", out_dir())) {
         for e in rd.flatten() {
             if e.file_name().to_string_lossy().starts_with(&format!("c12-{}-", std::process::id())) {
                 let _ = std::fs::remove_dir_all(e.path());
